@@ -1336,9 +1336,11 @@ class Concatenate(CanBehaveLikeAVariable[T]):
                         child_v_unwrapped = [child_v_unwrapped]
                     all_values[self._id_].extend(child_v_unwrapped)
                 all_values[id_].append(val)
-            for s_id, s_val in sources.items():
-                all_values[s_id].append(s_val)
-        yield {k: HashedValue(v) for k, v in all_values.items()}
+        # what was bound before the concatenation was evaluated keeps its own value (it is not turned into a list of
+        # copies of itself, one per concatenated row).
+        result = {k: HashedValue(v) for k, v in all_values.items() if k not in sources}
+        result.update(sources)
+        yield result
 
     @property
     def _name_(self):
